@@ -196,10 +196,15 @@ func c11Standalone(chs *tls.ClientHelloSpec) (*wireobs.ClientHello, error) {
 
 func c11Run(t *testing.T, cfg c11Config) c11Outcome {
 	var out c11Outcome
-	spec := cfg.spec() // ONE spec value, reused by the three dials
-	own := append(tls.TransportParameters{}, c11QTP(spec).TransportParameters...)
-	ids := spec.TransportParameterIDs() // pins GREASE ids, as documented
-	expect := c11Expected(own, cfg.Suppress)
+	var spec *quic.QUICSpec
+	var ids []uint64
+	var expect []c11TP
+	sim.WithSeed(t, cfg.Seed*7919+uint64(len(cfg.id())), func() {
+		spec = cfg.spec() // ONE spec value, reused by the three dials
+		own := append(tls.TransportParameters{}, c11QTP(spec).TransportParameters...)
+		ids = spec.TransportParameterIDs() // pins GREASE ids, as documented
+		expect = c11Expected(own, cfg.Suppress)
+	})
 	var wireOrders []string
 	var firstCH *wireobs.ClientHello
 	for dial := 1; dial <= 3 && out.fail == nil; dial++ {
@@ -497,6 +502,9 @@ func TestVerifC11(t *testing.T) {
 					}
 				}
 			}
+		}
+		for i := range cfgs {
+			cfgs[i].Seed = seed + uint64(i)*3
 		}
 		return cfgs, fmt.Sprintf("(a) 7 built-in fingerprints x {no suppression, every single present id (pairs in thorough), absent id, GREASE twice} x randomisation on/off, plus SCID lengths 0/8 with randomisation; (b) every transport parameter list of <= %d entries over %d atoms (standard, fake raw, GREASE with random id and length, fake with a GREASE id, duplicate id, empty initial_source_connection_id) x 3 suppression sets x randomisation on/off on 2 bases; 3 dials on ONE reused spec value each", maxLen, len(c11Atoms))
 	}
